@@ -86,7 +86,8 @@ pub fn patterns(len: usize) -> Vec<Vec<f64>> {
 pub const LENS: [usize; 8] = [2, 3, 4, 5, 10, 25, 35, 40];
 pub const ALPHAS: [f64; 5] = [0.0, 0.3, 0.42, 0.55, 0.6];
 
-/// A vocoder duplicated in the middle of an utterance (`Clone`) must carry on exactly like the original: for every split
+/// A vocoder duplicated in the middle of an utterance (`clone()`, or `clone_from()` into a used vocoder of another
+/// configuration) must carry on exactly like the original: for every split
 /// point 1..5 of a 7-frame run (voiced at 200 Hz and unvoiced frames of 40 samples, so that pulse responses ring across frame
 /// borders; parameters alternating between `pa` and `pb`; with and without a low-pass stream) the frames rendered by the copy
 /// are compared bit for bit with the frames rendered by the original.  `configs`: (nmcp, stage, log gain, alpha, beta, pa, pb).
@@ -109,7 +110,20 @@ pub fn clone_midstream(rep: &Report, configs: &[(usize, usize, bool, f64, f64, V
                     let (mut orig, mut copy) = (Vec::new(), Vec::new());
                     for (i, l) in lf0.iter().enumerate() {
                         if i == split {
-                            w = Some(v.clone());
+                            // odd split points: `clone()`; even ones: `clone_from()` into a vocoder that was built with other
+                            // parameters (one filter coefficient more, another warping, postfilter and volume) and has
+                            // already rendered a frame - afterwards it must be the source's twin all the same
+                            if split % 2 == 1 {
+                                w = Some(v.clone());
+                            } else {
+                                let mut other = Vocoder::new(*nmcp + 1, if nl == 0 { 3 } else { 0 }, *stage, !*lg && *stage > 0, 48000, 0.17, if *stage == 0 { 0.25 } else { 0.0 }, 2.0, fp);
+                                let mut warm: Vec<f64> = pa.clone();
+                                warm.push(if *stage == 0 { 0.01 } else { 3.1 });
+                                let mut b0 = vec![0.0; fp];
+                                other.synthesize(150f64.ln(), &warm, if nl == 0 { &h[..3] } else { &h[..0] }, &mut b0);
+                                other.clone_from(&v);
+                                w = Some(other);
+                            }
                         }
                         let p = if i % 2 == 0 { pa } else { pb };
                         let mut buf = vec![0.0; fp];
